@@ -6,9 +6,10 @@ MODULE = 'GudhiVerif.Properties.C10'
 THEOREMS = ['C10.zp_add', 'C10.zp_sub', 'C10.zp_mul', 'C10.zp_conv', 'C10.zp_convu', 'C10.zp_mad', 'C10.zp_aam',
             'C10.zp_init_prime', 'C10.zp_init_rejects', 'C10.zpInit_small', 'C10.zp_inv', 'C10.zp_eq',
             'C10.multi_idem_one', 'C10.multi_idem_zero', 'C10.d24_witness',
-            'ZpProto.mulLoop_spec', 'Zp2Proto.sub_add_cancel', 'GetValueProto.impl_violates']
-PARTIAL = ['C10_multi_partial: the specification of get_partial_inverse / partial identity of the multi-field classes is not yet a theorem '
-           '(CRT idempotents are); it is decided on every explored input by the exact oracle of props/C10.py']
+            'ZpProto.mulLoop_spec', 'Zp2Proto.sub_add_cancel', 'GetValueProto.impl_violates',
+            'MultiField.sqMul_spec', 'MultiField.isPrime_iff', 'MultiField.mfInit_wf', 'MultiField.mfPid_spec', 'MultiField.mfPinv_spec']
+PARTIAL = ['C10_multi_partial: the partial identity of the multi-field classes is a theorem (mfPid_spec, for every field accepted by mfInit: mfInit_wf); the partial inverse is proved up to the extended-Euclid loop, '
+           'whose result enters mfPinv_spec as a hypothesis (the loop is compared with the code and decided on every explored input by the exact oracle of props/C10.py)']
 ASSUMPTIONS = ['GMP (mpz_gcd, mpz_invert, mpz_powm_ui, mpz_nextprime) behaves as documented',
                'static classes are exercised for the instantiated template parameters only (Zp: 2,3,5,7,13,31,251,32749,65521; ranges [2,3],[2,5],[3,11],[5,13],[2,23],[7,7])']
 
@@ -55,6 +56,17 @@ def operand(rng, m, reduced, wide=2 ** 32):
     if r < 0.5: return m - 1
     if r < 0.8 or reduced: return rng.randrange(m)
     return rng.choice([m, m + 1, 2 * m - 1, 2 ** 31 - 1, 2 ** 31, 2 ** 31 + 1, wide - 1, rng.randrange(wide)]) % wide
+
+
+def corner_case(stream, p):
+    """operands next to p for the largest characteristics: every fused and binary operation where the 32-bit intermediate is largest"""
+    fam, ops, con = STREAMS[stream]
+    lines = ['zp %d' % p]
+    for o in ops:
+        if o in ('add', 'sub', 'mul', 'negmul'): lines += ['%s %d %d' % (o, p - 1, p - 1), '%s %d %d' % (o, p - 1, p - 2), '%s %d %d' % (o, p // 2 + 1, p - 1)]
+        if o in ('mad', 'aam'): lines += ['%s %d %d %d' % (o, p - 1, p - 1, p - 1), '%s %d %d %d' % (o, p - 2, p - 1, p - 3), '%s %d %d %d' % (o, p // 2, p - 1, p - 2), '%s %d %d %d' % (o, p - 1, 1, p - 1)]
+        if o == 'inv': lines += ['inv %d' % (p - 1), 'inv 2']
+    return lines
 
 
 def gen_case(rng, stream, tier, big=False):
@@ -264,6 +276,9 @@ def run(ctx):
         cases = [gen_case(ctx.rng, s, ctx.tier) for _ in range(n)]
         nbig = (6 if thorough else 1) if s in ('zp_ops', 'zp_shared', 'zp_static', 'coh_zp') else 0
         cases += [gen_case(ctx.rng, s, ctx.tier, big=True) for _ in range(nbig)]
+        if s in ('zp_ops', 'zp_shared'): cases += [corner_case(s, q) for q in ((46349, 65521) if not thorough else (32749, 46337, 46349, 65521))]
+        if s == 'zp_static': cases += [corner_case(s, q) for q in (32749, 65521)]
+        if s == 'coh_zp': cases += [corner_case(s, 46337)]
         vlib.correspondence(ctx, s, [exe, s], drv, cases, nontrivial=nontriv, keep_prefix=1, oracle=oracle)
     # exhaustive small primes (all operand pairs / triples) for the three run-time and static Z_p classes
     ex = exhaustive_cases([2, 3, 5, 7, 13] + ([31] if thorough else []))
